@@ -8,7 +8,7 @@ use super::msgmap::{self, broker_serial_in, broker_serial_out, kind_name, msg_eq
 use super::pipe::{duplex, End};
 use aldrin_broker::{Broker, BrokerHandle, ConnectionHandle};
 use aldrin_core::message::*;
-use aldrin_core::SerializedValue;
+use aldrin_core::{BusEvent, SerializedValue};
 use std::cell::RefCell;
 use std::collections::{BTreeSet, HashMap};
 use std::rc::Rc;
@@ -109,6 +109,10 @@ pub struct Rig {
     pub cands: Vec<Cand>,
     pub events: Vec<String>,
     pub version_violations: Vec<String>,
+    /// untagged bus events seen out of lifetime order (a service event after the destruction of
+    /// its object, an object creation after an event of one of its services), per connection
+    pub order_violations: Vec<String>,
+    lifetime_mon: Vec<(std::collections::HashSet<Uuid>, std::collections::HashSet<Uuid>)>,
     pub kinds_delivered: BTreeSet<String>,
     pub kinds_sent: BTreeSet<String>,
     pub steps: u64,
@@ -144,6 +148,8 @@ impl Rig {
             cands: vec![Cand { model: Model::new(), bind: Bindings::default() }],
             events: Vec::new(),
             version_violations: Vec::new(),
+            order_violations: Vec::new(),
+            lifetime_mon: Vec::new(),
             kinds_delivered: BTreeSet::new(),
             kinds_sent: BTreeSet::new(),
             steps: 0,
@@ -320,6 +326,33 @@ impl Rig {
                             if let Some(p) = msgmap::payload_bytes(&m) {
                                 if msgmap::payload_has_v2_kind(&p) == Some(true) {
                                     self.version_violations.push(format!("conn {} (1.{}) received a 1.20 container encoding in {}", i, v, kind_name(&m)));
+                                }
+                            }
+                        }
+                        if let Message::EmitBusEvent(EmitBusEvent { cookie: None, event }) = &m {
+                            if self.lifetime_mon.len() <= i {
+                                self.lifetime_mon.resize_with(i + 1, Default::default);
+                            }
+                            let (destroyed, svc_seen) = &mut self.lifetime_mon[i];
+                            match event {
+                                BusEvent::ObjectCreated(id) => {
+                                    if svc_seen.contains(&id.cookie.0) {
+                                        self.order_violations.push(format!("conn {} was told about the creation of object {:?} after an event of one of its services", i, id.uuid));
+                                    }
+                                }
+                                BusEvent::ObjectDestroyed(id) => {
+                                    destroyed.insert(id.cookie.0);
+                                }
+                                BusEvent::ServiceCreated(sid) | BusEvent::ServiceDestroyed(sid) => {
+                                    if destroyed.contains(&sid.object_id.cookie.0) {
+                                        self.order_violations.push(format!(
+                                            "conn {} received {} for a service of object {:?} after the ObjectDestroyed of that object: a service's events must lie inside its object's lifetime",
+                                            i,
+                                            if matches!(event, BusEvent::ServiceCreated(_)) { "ServiceCreated" } else { "ServiceDestroyed" },
+                                            sid.object_id.uuid
+                                        ));
+                                    }
+                                    svc_seen.insert(sid.object_id.cookie.0);
                                 }
                             }
                         }
